@@ -502,6 +502,31 @@ def replay_walk(ce):
     n = counter[0]
     details = []
     bad = False
+    # the same tree with an assignment at every leaf: under a mutable context every operator application must go through the mutable evaluator
+    counter[0] = 0
+    order2 = []
+    leaves = []
+
+    def build_assign(shape):
+        i = counter[0]
+        counter[0] += 1
+        kids = [build_assign(s) for s in shape]
+        order2.append(i)
+        if not kids:
+            leaves.append(i)
+            return '(v%d = n%d(0))' % (i, i)
+        return 'n%d(%s)' % (i, ', '.join(kids))
+    expr_a = build_assign(forest)
+    for prof in ('dev', 'release'):
+        funcs = [('n%d' % i, 'log') for i in range(n)]
+        o = replay.run_cases(replay.case_text('a', 'eval_with_context_mut', expr_a, funcs=funcs), prof)['a']
+        got = [nm for nm, a in o.get('log', [])]
+        want = ['n%d' % i for i in order2]
+        r = o.get('result')
+        okk = got == want and bool(r) and r[0] == 'Ok' and all(('v%d' % i) in o.get('vars', {}) for i in leaves)
+        if not okk:
+            bad = True
+            details.append('%s eval_with_context_mut: `%s`: calls %s (expected %s), result %s, variables %s' % (prof, expr_a, got, want, r, sorted(o.get('vars', {}))))
     for prof in ('dev', 'release'):
         for entry in ('eval_with_context_mut', 'eval_with_context'):
             for fail_at in [None] + list(range(n)):
